@@ -24,11 +24,39 @@ theorem cvrp_ctor_check (ρ : String → Int) (h : accepts (checks "cvrp.CVRP") 
   omega
 
 /-- … hence for every configuration `CVRP(generator=UniformGenerator(n, max_capacity, max_demand))` accepts and every valid draw the
-generated instance satisfies the generator certificate (demands never exceed the capacity, coordinates in the box, documented start state) -/
+generated instance satisfies the generator certificate (demands never exceed the capacity, coordinates in the box, documented start state).
+CAVEAT (audit r4 #1): `validUniform` is the DOCUMENTED support `[1, max_demand]`, which is empty unless `1 ≤ ρ "max_demand"`
+(`cvrp_validUniform_pos`) — the constructor ACCEPTS `max_demand ≤ 0` (`cvrp_ctor_accepts_zero`), and there this theorem is vacuous
+while the real generator draws demands 1 > max_demand (`cvrp_max_demand_zero_witness`).  The form with the hypothesis explicit and
+the support the CODE draws from is `cvrp_generate_cert_of_ctor_code`. -/
 theorem cvrp_generate_cert_of_ctor (ρ : String → Int) (h : accepts (checks "cvrp.CVRP") ρ = true)
     (n : Nat) (cd : List (List Rat)) (dd : List Int) (hd : CVRP.validUniform n (ρ "max_demand") cd dd) :
     CVRP.GenCert n (ρ "max_capacity") (ρ "max_demand") (CVRP.generate n (ρ "max_capacity") cd dd) :=
   cvrp_generate_cert n _ _ cd dd (cvrp_ctor_check ρ h) hd
+
+/-- the constructor does NOT check `1 ≤ max_demand`: the configuration `max_capacity = max_demand = 0` is accepted (real code:
+`CVRP(UniformGenerator(3, 0, 0))` constructs; demands `[0 1 1 1]`, capacity 0, observation demands `[nan inf inf inf]`) -/
+theorem cvrp_ctor_accepts_zero : accepts (checks "cvrp.CVRP") (fun _ => 0) = true := by decide +kernel
+
+/-- REPAIRED (audit r4 #1): `1 ≤ ρ "max_demand"` EXPLICIT — it is not implied by the constructor's check — and the draws taken from
+the support of the code (`validUniformCode`: `randint(1, max_demand)`, upper bound exclusive): the generated instance satisfies the
+certificate and no customer demand exceeds `max(1, max_demand − 1)`.  Without `h1` the statement is FALSE:
+`cvrp_max_demand_zero_witness` (accepted configuration, admissible draw, certificate violated). -/
+theorem cvrp_generate_cert_of_ctor_code (ρ : String → Int) (h : accepts (checks "cvrp.CVRP") ρ = true)
+    (h1 : 1 ≤ ρ "max_demand")
+    (n : Nat) (cd : List (List Rat)) (dd : List Int) (hd : CVRP.validUniformCode n (ρ "max_demand") cd dd) :
+    CVRP.GenCert n (ρ "max_capacity") (ρ "max_demand") (CVRP.generate n (ρ "max_capacity") cd dd) ∧
+    (∀ d ∈ (CVRP.generate n (ρ "max_capacity") cd dd).demands.drop 1, d ≤ max 1 (ρ "max_demand" - 1)) :=
+  cvrp_generate_cert_code n _ _ cd dd h1 (cvrp_ctor_check ρ h) hd
+
+/-- … and `h1` cannot be dropped: an accepted configuration (`ρ = 0` everywhere) and a draw of the code's support for which the
+certificate fails -/
+theorem cvrp_generate_cert_of_ctor_needs_pos :
+    ∃ (ρ : String → Int) (n : Nat) (cd : List (List Rat)) (dd : List Int),
+      accepts (checks "cvrp.CVRP") ρ = true ∧ CVRP.validUniformCode n (ρ "max_demand") cd dd ∧
+      ¬ CVRP.GenCert n (ρ "max_capacity") (ρ "max_demand") (CVRP.generate n (ρ "max_capacity") cd dd) :=
+  ⟨fun _ => 0, 3, [[0,0],[0,0],[0,0],[0,0]], [1,1,1,1], cvrp_ctor_accepts_zero,
+    cvrp_max_demand_zero_witness.1, cvrp_max_demand_zero_witness.2.2.2.2.1⟩
 
 /-- `Tetris.__init__` returns only for boards of at least 4 x 4 -/
 theorem tetris_ctor_check (ρ : String → Int) (h : accepts (checks "tetris.Tetris") ρ = true) :
@@ -75,6 +103,120 @@ theorem lbf_ctor_check (ρ : String → Int) (h : accepts (checks "lbf.RandomGen
   rw [e] at h
   simp [Gen.Guards.c_cvrp_CVRP, Gen.Guards.c_tetris_Tetris, Gen.Guards.c_minesweeper_Generator, Gen.Guards.c_rubiks_cube_RubiksCube, Gen.Guards.c_rubiks_cube_Generator, Gen.Guards.c_rubiks_cube_ScramblingGenerator, Gen.Guards.c_robot_warehouse_Generator, Gen.Guards.c_lbf_RandomGenerator, accepts, C.eval, E.eval] at h
   omega
+
+/-! ### (audit r4 #4) corollaries that DISCHARGE the configuration hypotheses of environment theorems from the generated checks
+
+`ρ` is the constructor's argument environment; `hr`, `hc`, `hm` say that the model configuration `cfg` is the one built from
+those arguments. -/
+
+/-- what the Minesweeper generator's constructor guarantees, in the terms the C01 theorems use -/
+theorem minesweeper_cfg_of_ctor (ρ : String → Int)
+    (h : accepts (checks "minesweeper.Generator") ρ = true) (cfg : Minesweeper.Cfg)
+    (hr : (cfg.numRows : Int) = ρ "num_rows") (hc : (cfg.numCols : Int) = ρ "num_cols")
+    (hm : (cfg.numMines : Int) = ρ "num_mines") :
+    2 ≤ cfg.numRows ∧ 2 ≤ cfg.numCols ∧ cfg.numMines < Minesweeper.cells cfg := by
+  obtain ⟨h1, h2, _, h4⟩ := minesweeper_ctor_check ρ h
+  rw [← hr, ← hc, ← hm] at h4
+  rw [← hr] at h1; rw [← hc] at h2
+  exact ⟨by omega, by omega, by unfold Minesweeper.cells; exact_mod_cast h4⟩
+
+/-- C01 from the constructor: the `reset` observation of every configuration the generator's constructor ACCEPTS, for every valid
+draw of the mine locations, is a member of the declared spec (`hM` of `minesweeper_reset_obs_valid` discharged) -/
+theorem minesweeper_reset_obs_valid_of_ctor (ρ : String → Int)
+    (h : accepts (checks "minesweeper.Generator") ρ = true) (cfg : Minesweeper.Cfg)
+    (hr : (cfg.numRows : Int) = ρ "num_rows") (hc : (cfg.numCols : Int) = ρ "num_cols")
+    (hm : (cfg.numMines : Int) = ρ "num_mines") (d : List Nat) (hd : Minesweeper.validDraw cfg d) :
+    (Minesweeper.obsSpec cfg).valid
+      (Minesweeper.toNValue (Minesweeper.resetTimeStep cfg (Minesweeper.generate cfg d)).obs) = true :=
+  Props.C01.minesweeper_reset_obs_valid cfg d hd (minesweeper_cfg_of_ctor ρ h cfg hr hc hm).2.2
+
+/-- … every `step` observation from a consistent, not yet solved state -/
+theorem minesweeper_step_obs_valid_of_ctor (ρ : String → Int)
+    (h : accepts (checks "minesweeper.Generator") ρ = true) (cfg : Minesweeper.Cfg)
+    (hr : (cfg.numRows : Int) = ρ "num_rows") (hc : (cfg.numCols : Int) = ρ "num_cols")
+    (hm : (cfg.numMines : Int) = ρ "num_mines") (s : Minesweeper.State) (hcs : Minesweeper.Consistent cfg s)
+    (r c : Nat) (hr' : r < cfg.numRows) (hc' : c < cfg.numCols) (hns : Minesweeper.isSolved s = false) :
+    (Minesweeper.obsSpec cfg).valid (Minesweeper.toNValue (Minesweeper.step cfg s r c).2.obs) = true :=
+  Props.C01.minesweeper_step_obs_valid cfg s hcs r c hr' hc' hns (minesweeper_cfg_of_ctor ρ h cfg hr hc hm).2.2
+
+/-- … and every observation of every episode from the generator (any in-spec play that has not met LAST, then any square) -/
+theorem minesweeper_episode_obs_valid_of_ctor (ρ : String → Int)
+    (h : accepts (checks "minesweeper.Generator") ρ = true) (cfg : Minesweeper.Cfg)
+    (hr : (cfg.numRows : Int) = ρ "num_rows") (hc : (cfg.numCols : Int) = ρ "num_cols")
+    (hm : (cfg.numMines : Int) = ρ "num_mines") (d : List Nat) (hd : Minesweeper.validDraw cfg d)
+    (as : List (Nat × Nat)) (hin : ∀ a ∈ as, a.1 < cfg.numRows ∧ a.2 < cfg.numCols)
+    (hrun : (Minesweeper.play cfg (Minesweeper.generate cfg d) as).ending = .running) (r c : Nat)
+    (hr' : r < cfg.numRows) (hc' : c < cfg.numCols) :
+    (Minesweeper.obsSpec cfg).valid
+      (Minesweeper.toNValue (Minesweeper.step cfg (Minesweeper.play cfg (Minesweeper.generate cfg d) as).final r c).2.obs) = true :=
+  Props.C01.minesweeper_episode_obs_valid cfg d hd (minesweeper_cfg_of_ctor ρ h cfg hr hc hm).2.2 as hin hrun r c hr' hc'
+
+/-- Tetris: `0 < num_rows`, `3 ≤ num_cols` of the C01 theorems discharged from `Tetris.__init__`'s check (reset, every step, whole
+rollouts) -/
+theorem tetris_obs_valid_of_ctor (ρ : String → Int) (h : accepts (checks "tetris.Tetris") ρ = true) (cfg : Tetris.Cfg)
+    (hr : (cfg.numRows : Int) = ρ "num_rows") (hc : (cfg.numCols : Int) = ρ "num_cols") :
+    (∀ d, Tetris.validDraw d → (Tetris.obsSpec cfg).valid (Tetris.toNValue (Tetris.reset cfg d).2.obs) = true) ∧
+    (∀ (s : Tetris.State) (rot x : Int) (d : Nat), Tetris.GridShaped cfg s → s.stepCount < cfg.timeLimit → Tetris.validDraw d →
+      (Tetris.obsSpec cfg).valid (Tetris.toNValue (Tetris.step cfg s rot x d).2.obs) = true) ∧
+    (∀ (d0 : Nat) (as : List (Int × Int × Nat)) (j : Nat) (e : Tetris.State × Jm.TimeStep Tetris.Obs),
+      (∀ a ∈ as, Tetris.validDraw a.2.2) → j < cfg.timeLimit →
+      (Ep.rollout (fun s (a : Int × Int × Nat) => Tetris.step cfg s a.1 a.2.1 a.2.2) (Tetris.reset cfg d0).1 as)[j]? = some e →
+      (Tetris.obsSpec cfg).valid (Tetris.toNValue e.2.obs) = true) := by
+  obtain ⟨h1, h2⟩ := tetris_ctor_check ρ h
+  rw [← hr] at h1; rw [← hc] at h2
+  have hR : 0 < cfg.numRows := by omega
+  have hC : 3 ≤ cfg.numCols := by omega
+  exact ⟨fun d hd => Props.C01.tetris_reset_obs_valid cfg hR hC d hd,
+    fun s rot x d hs hl hd => Props.C01.tetris_step_obs_valid cfg hR hC s hs hl rot x d hd,
+    fun d0 as j e has hj he => Props.C01.tetris_rollout_obs_valid cfg hR hC d0 as has j hj e he⟩
+
+/-- CVRP: `max_demand ≤ max_capacity` of `cvrp_reset_obs_valid` discharged from `CVRP.__init__`'s check.  (`validDraw` is the
+documented support and forces `1 ≤ max_demand`; see `cvrp_generate_cert_of_ctor_code` / `cvrp_max_demand_zero_witness` for what
+the constructor does not check.) -/
+theorem cvrp_reset_obs_valid_of_ctor (ρ : String → Int) (h : accepts (checks "cvrp.CVRP") ρ = true) (c : CVRP.Cfg)
+    (hc : c.maxCap = ρ "max_capacity") (n : Nat) (cd : List (List Rat)) (dd : List Int)
+    (hd : CVRP.validDraw n (ρ "max_demand") cd dd) :
+    (CVRP.obsSpec n).valid (CVRP.toNValue (CVRP.reset c n cd dd).2.obs) = true ∧ CVRP.SpecInv c n (CVRP.reset c n cd dd).1 :=
+  ⟨Props.C01.cvrp_reset_obs_valid c n _ cd dd hd (by rw [hc]; exact cvrp_ctor_check ρ h),
+   Props.C01.cvrp_reset_specInv c n _ cd dd hd (by rw [hc]; exact cvrp_ctor_check ρ h)⟩
+
+/-! ### (audit r4 #4, M) checks OUTSIDE the integer-valued guard language
+
+The guard language evaluates every attribute as an `Int`.  Two generated classes have checks it cannot express; about them
+`accepts` carries NO usable information, and no theorem of this file may be read as covering them. -/
+
+/-- does a condition / expression contain a sub-term the translator did not recognise? -/
+def E.hasUnknown : E → Bool
+  | .attr _ => false | .const _ => false
+  | .add a b => E.hasUnknown a || E.hasUnknown b | .sub a b => E.hasUnknown a || E.hasUnknown b
+  | .mul a b => E.hasUnknown a || E.hasUnknown b | .mod a b => E.hasUnknown a || E.hasUnknown b
+  | .pow a _ => E.hasUnknown a | .unknown _ => true
+def C.hasUnknown : C → Bool
+  | .lt a b => E.hasUnknown a || E.hasUnknown b | .le a b => E.hasUnknown a || E.hasUnknown b
+  | .eq a b => E.hasUnknown a || E.hasUnknown b | .ne a b => E.hasUnknown a || E.hasUnknown b
+  | .and a b => C.hasUnknown a || C.hasUnknown b | .or a b => C.hasUnknown a || C.hasUnknown b
+  | .not a => C.hasUnknown a | .unknown _ => true
+
+/-- (1) exactly ONE class of the generated table has a check with an unrecognised sub-term: `mmst.Generator` (the float constant
+`0.8` in `num_nodes * 0.8 < num_nodes_per_agent * num_agents`): that check evaluates to `none` for every argument environment, so
+it passes `accepts` silently — `accepts` is `true` for EVERY `ρ`, also for those the real constructor refuses.
+(2) `graph_coloring.RandomGenerator` (`0 < edge_probability < 1`, a FLOAT attribute read as an integer) is syntactically
+recognised but NEVER accepted: no integer lies strictly between 0 and 1.  Regenerating `Gen/Guards.lean` from a source with another
+such check breaks this theorem. -/
+theorem guards_outside_int_language :
+    (Gen.Guards.table.filter (fun e => e.2.any C.hasUnknown)).map (·.1) = ["mmst.Generator"] ∧
+    (∀ ρ, accepts (checks "mmst.Generator") ρ = true) ∧
+    (∀ ρ, accepts (checks "graph_coloring.RandomGenerator") ρ = false) := by
+  refine ⟨by decide +kernel, ?_, ?_⟩
+  · intro ρ
+    have e : checks "mmst.Generator" = Gen.Guards.c_mmst_Generator := by decide +kernel
+    rw [e]
+    simp [Gen.Guards.c_mmst_Generator, accepts, C.eval, E.eval]
+  · intro ρ
+    have e : checks "graph_coloring.RandomGenerator" = Gen.Guards.c_graph_coloring_RandomGenerator := by decide +kernel
+    rw [e]
+    simp [Gen.Guards.c_graph_coloring_RandomGenerator, accepts, C.eval, E.eval]
+    omega
 
 -- non-vacuity: the shipped default configurations are accepted
 example : accepts (checks "cvrp.CVRP") (fun n => if n = "max_capacity" then 30 else if n = "max_demand" then 10 else 0) = true := by decide +kernel
